@@ -181,14 +181,16 @@ class Recorder:
             ex = "stopped"
         out = {"exit": ex, "rc": r.rc, "err": int(summ.get("error_file", ["0"])[0]),
                "silent": int(summ.get("error_data", ["0"])[0]), "io": int(summ.get("error_io", ["0"])[0])}
-        line = {"e": "Sync", "args": {"opts": opts, "now": self.now(), "srcs": srcs, "flags": list(flags)},
+        sg = [t for t in r.tag("sigint") if len(t) > 1 and t[1].isdigit()]
+        opts["stop"] = int(sg[0][1]) + 1 if sg else 0
+        line = {"e": "Sync", "args": {"opts": opts, "now": self.now(), "srcs": srcs, "flags": list(flags), "rules": rules or []},
                 "state": st, "out": out}
         if midrun:
             line["fs1"] = st["fs"]
         self.lines.append(line)
         return r, out
 
-    def sync_killed(self, rules, *flags):
+    def sync_killed(self, rules, *flags, autosave_at=None):
         """sync with an injected SIGKILL (shim rules); logs the state that is left on disk"""
         opts = {"force_full": "-F" in flags, "force_empty": "-E" in flags, "force_zero": "-Z" in flags,
                 "nocopy": "--force-nocopy" in flags, "kill_after": False}
@@ -196,8 +198,10 @@ class Recorder:
         self.last_result = r
         st = self.state()
         srcs = {d: {} for d in self.D}
-        self.lines.append({"e": "SyncKilled", "args": {"opts": opts, "now": self.now(), "srcs": srcs, "rules": rules,
-                                                        "flags": list(flags)}, "state": st, "out": {"rc": r.rc}})
+        args = {"opts": opts, "now": self.now(), "srcs": srcs, "rules": rules, "flags": list(flags)}
+        if autosave_at is not None:
+            args["autosave_at"] = autosave_at
+        self.lines.append({"e": "SyncKilled", "args": args, "state": st, "out": {"rc": r.rc}})
         return r
 
     def present_levels(self):
@@ -244,6 +248,56 @@ class Recorder:
         self.lines.append({"e": "Fix", "args": {"present": list(range(1, self.a.conf.np + 1)), "sel": sel,
                                                 "flags": list(flags)}, "state": st, "out": out})
         return r, out
+
+    def _fault_info(self, r, st):
+        """kind and stripe position of the injected fault, from the shim trace of the faulted run"""
+        ev = [e for e in r.trace if e.get("inj") in ("eio", "enospc")]
+        if not ev:
+            return "none", -1
+        e = ev[0]
+        role = self.a.role(e["path"])
+        blk = e["off"] // BS if e["off"] >= 0 else -1
+        if role.startswith("parity:"):
+            return ("parity-write" if e["c"] == "pwrite" else "parity-read"), blk
+        if role.startswith("data:"):
+            d = role.split(":")[1]
+            name = os.path.relpath(e["path"], self.a.ddir(int(d)))
+            f = st["cf"].get(d, {}).get(name)
+            if f and 0 <= blk < len(f["bl"]):
+                return "data-read", f["bl"][blk]["pos"]
+            return "data-read", -1
+        return "other", -1
+
+    def sync_fault(self, rules, *flags):
+        opts = {"force_full": "-F" in flags, "force_empty": "-E" in flags, "force_zero": "-Z" in flags,
+                "nocopy": False, "kill_after": False}
+        r = self.a.run("sync", *flags, rules=rules, trace=True)
+        self.last_result = r
+        st = self.state()
+        kind, pos = self._fault_info(r, st)
+        summ = {t[1]: t[2] for t in r.tag("summary") if len(t) > 2}
+        self.lines.append({"e": "SyncFault", "args": {"opts": opts, "now": self.now(), "rules": rules, "flags": list(flags),
+                                                       "fkind": kind, "fpos": pos},
+                           "state": st, "out": {"rc": r.rc, "io": int(summ.get("error_io", "0") or 0)}})
+        return r, kind, pos
+
+    def scrub_fault(self, rules, plan="full", *flags):
+        r = self.a.run("scrub", "-p", plan, *flags, rules=rules, trace=True, trace_reads=False)
+        self.last_result = r
+        st = self.state()
+        kind, pos = self._fault_info(r, st)
+        summ = {t[1]: t[2] for t in r.tag("summary") if len(t) > 2}
+        self.lines.append({"e": "ScrubFault", "args": {"now": self.now(), "rules": rules, "flags": list(flags), "plan": plan,
+                                                        "fkind": kind, "fpos": pos},
+                           "state": st, "out": {"rc": r.rc, "io": int(summ.get("error_io", "0") or 0)}})
+        return r, kind, pos
+
+    def fix_killed(self, rules, *flags):
+        r = self.a.run("fix", *flags, rules=rules)
+        self.last_result = r
+        self.lines.append({"e": "FixKilled", "args": {"rules": rules, "flags": list(flags)}, "state": self.state(),
+                           "out": {"rc": r.rc}})
+        return r
 
     def scrub(self, plan="full", *flags):
         present = self.present_levels()
